@@ -175,14 +175,30 @@ def dirIdAt (sp : Spec) (p : Path) : Option Nat :=
   | some (.dir id) => some id
   | _ => none
 
-/-- fsync of a directory: its durable children become its live children; like the crate's model
-    it also makes the directory's *own* entry durable if the parent has no durable entry of that name -/
+/-- where an entry currently lives: (parent dir id, name) -/
+def locOf (sp : Spec) (e : Ent) : Option (Nat × Nat) :=
+  match sp.ents.find? (fun kv => kv.2 == e) with
+  | none => none
+  | some kv =>
+    match parent kv.1 with
+    | none => none
+    | some par =>
+      match entAt sp par with
+      | some (.dir pid) => some (pid, kv.1.getLastD 0)
+      | _ => none
+
+/-- fsync of a directory: its durable children become its live children.  Following the crate's
+    model an entry that was renamed *into* the directory loses its old durable name at the same time
+    (the rename is flushed as one op); an entry renamed *out* of it is simply no longer durable here
+    (it becomes durable at its new place only when that parent is synced).  The directory's *own*
+    entry becomes durable if the parent has no durable entry of that name. -/
 def sSyncDir (sp : Spec) (p : Path) : Except Err Spec :=
   match dirIdAt sp p with
   | none => .error .notfound
   | some id =>
     let kids : List ((Nat × Nat) × Ent) := (sChildren sp p).map fun kv => ((id, kv.1.getLastD 0), kv.2)
-    let d1 := (sp.dents.filter fun kv => kv.1.1 != id) ++ kids
+    let others := sp.dents.filter fun kv => kv.1.1 != id && !(kids.any fun k => k.2 == kv.2)
+    let d1 := others ++ kids
     let d2 := match parent p with
       | none => d1
       | some par =>
